@@ -56,6 +56,10 @@ func (s *ServerLedActivationToken) Store(ctx context.Context, storage nodeenroll
 		if err != nil {
 			return fmt.Errorf("(%s) error reading wrapper key id: %w", op, err)
 		}
+		if keyId == "" {
+			// Load recognizes sealed records by a non-empty wrapping key ID
+			return fmt.Errorf("(%s) storage wrapper has no key id", op)
+		}
 		tokenToStore.WrappingKeyId = keyId
 
 		blobInfo, err := opts.WithStorageWrapper.Encrypt(
